@@ -4,10 +4,59 @@ From PV Require Import Model.C11_residual Proofs.C11_residual Model.C11_function
 Import ListNotations.
 Open Scope Qc_scope.
 
+(* program variables are the positives below 1000; the temporaries of the repaired
+   exitIfStatement (tmp_of x = x + 1000) lie above *)
+Definition small (y : positive) : Prop := (y < 1000)%positive.
+Lemma tmp_not_small x : ~ small (tmp_of x).
+Proof. unfold small, tmp_of. lia. Qed.
+Lemma small_neq_tmp y x : small y -> Pos.eqb y (tmp_of x) = false.
+Proof. intro H. apply Pos.eqb_neq. intro E. subst y. exact (tmp_not_small x H). Qed.
+
+(* expressions that read only program variables *)
+Fixpoint wfe (e : expr) : Prop :=
+  match e with
+  | ENum _ | EBool _ => True
+  | ERef (RVar x) => small x
+  | ERef _ => True
+  | EUn _ a => wfe a
+  | EBin _ a b => wfe a /\ wfe b
+  | EIf brs els =>
+      (fix go (l : list (expr * expr)) : Prop :=
+         match l with
+         | [] => wfe els
+         | (c, a) :: r => wfe c /\ wfe a /\ go r
+         end) brs
+  | EFun _ a => wfe a
+  end.
+Definition wfa (a : assign) : Prop := small (fst a) /\ wfe (snd a).
+
+Definition agree (r1 r2 : menv) : Prop :=
+  (forall y, small y -> m_sc r1 y = m_sc r2 y) /\
+  (forall x, m_der r1 x = m_der r2 x) /\
+  (forall x k, m_arr r1 x k = m_arr r2 x k) /\
+  m_i r1 = m_i r2.
+
 Section FunSound.
 Variable F : positive -> Qc -> Qc.
 Variable T : table.
 Hypothesis HT : table_ok T = true.
+
+(* coincidence: the Modelica meaning depends only on the program variables *)
+Lemma m_eval_agree r1 r2 : agree r1 r2 -> forall e, wfe e -> m_eval F e r1 = m_eval F e r2.
+Proof.
+  intros (A1 & A2 & A3 & A4) e.
+  induction e using expr_ind'; cbn [wfe m_eval]; intro W.
+  - reflexivity.
+  - reflexivity.
+  - destruct r; cbn [m_ref]; try rewrite A4; try rewrite A3; try rewrite A2; try reflexivity.
+    rewrite (A1 x W). reflexivity.
+  - rewrite (IHe W). reflexivity.
+  - destruct W as [W1 W2]. rewrite (IHe1 W1), (IHe2 W2). reflexivity.
+  - induction H as [| [c a] r [Hc Ha] _ IHr].
+    + apply IHe. exact W.
+    + destruct W as (Wc & Wa & Wr). simpl in Hc, Ha. rewrite (Hc Wc), (Ha Wa), (IHr Wr). reflexivity.
+  - rewrite (IHe W). reflexivity.
+Qed.
 
 (* binding the loop index = evaluating with the index set *)
 Lemma bind_i_eval v c rho : ca_eval F (bind_i v c) rho = ca_eval F c (with_ci rho v).
@@ -42,9 +91,11 @@ Proof.
 Qed.
 
 (* invariant between the Modelica environment during sequential execution and the symbolic
-   `values` dict of get_function, evaluated at the input point rc *)
+   `values` dict of get_function, evaluated at the input point rc: every PROGRAM variable has
+   the same number on both sides; every symbolic value (temporaries included) is defined *)
 Definition Inv (sigma : positive -> caexpr) (rm : menv) (rc : cenv) : Prop :=
-  (forall y, exists q, m_sc rm y = VNum q /\ ca_eval F (sigma y) rc = Some q) /\
+  (forall y, small y -> exists q, m_sc rm y = VNum q /\ ca_eval F (sigma y) rc = Some q) /\
+  (forall y, exists q, ca_eval F (sigma y) rc = Some q) /\
   (forall x, c_der rc x = m_der rm x) /\
   (forall x k, c_arr rc x (k - 1) = m_arr rm x k).
 
@@ -52,36 +103,53 @@ Definition gof (sigma : positive -> caexpr) (rc : cenv) (y : positive) : Qc :=
   match ca_eval F (sigma y) rc with Some q => q | None => 0 end.
 
 Lemma inv_gof sigma rm rc : Inv sigma rm rc -> forall y, ca_eval F (sigma y) rc = Some (gof sigma rc y).
-Proof. intros (H & _) y. destruct (H y) as (q & _ & E). unfold gof. rewrite E. reflexivity. Qed.
+Proof. intros (_ & H & _) y. destruct (H y) as (q & E). unfold gof. rewrite E. reflexivity. Qed.
 
-Lemma inv_env_rel sigma rm rc :
-  Inv sigma rm rc -> env_rel rm (set_sc rc (gof sigma rc) (m_i rm)).
+(* the shadow Modelica environment in which EVERY scalar has its CasADi value *)
+Definition shadow (sigma : positive -> caexpr) (rm : menv) (rc : cenv) : menv :=
+  {| m_sc := fun y => VNum (gof sigma rc y); m_der := m_der rm; m_arr := m_arr rm; m_i := m_i rm |}.
+
+Lemma shadow_agree sigma rm rc : Inv sigma rm rc -> agree rm (shadow sigma rm rc).
 Proof.
-  intros (H1 & H2 & H3). repeat split; cbn [set_sc c_sc c_der c_arr c_i]; auto.
-  intro x. destruct (H1 x) as (q & E1 & E2). rewrite E1. unfold gof. rewrite E2. reflexivity.
+  intros (H1 & _). repeat split; simpl; auto.
+  intros y Hy. destruct (H1 y Hy) as (q & E1 & E2). rewrite E1. unfold gof. rewrite E2. reflexivity.
 Qed.
+Lemma shadow_env_rel sigma rm rc :
+  Inv sigma rm rc -> env_rel (shadow sigma rm rc) (set_sc rc (gof sigma rc) (m_i rm)).
+Proof. intros (_ & _ & H2 & H3). repeat split; simpl; auto. Qed.
 
 Lemma inv_with_mi sigma rm rc v : Inv sigma rm rc -> Inv sigma (with_mi rm v) rc.
-Proof. intros (H1 & H2 & H3). repeat split; simpl; auto. Qed.
+Proof. intros (H1 & H2 & H3 & H4). repeat split; simpl; auto. Qed.
+
+(* expressions under the invariant *)
+Lemma exprI_sound sigma rm rc e ce v :
+  Inv sigma rm rc -> wfe e -> tr T e = Ok ce -> m_eval F e rm = Some v ->
+  exists w, ca_eval F ce (set_sc rc (gof sigma rc) (m_i rm)) = Some w /\ enc_rel v w.
+Proof.
+  intros HI W Htr Me.
+  rewrite (m_eval_agree _ _ (shadow_agree sigma rm rc HI) e W) in Me.
+  exact (expr_sound F T HT _ _ (shadow_env_rel sigma rm rc HI) e ce Htr v Me).
+Qed.
 
 (* one assignment; c' is the graph actually emitted for the right-hand side (the translated
    expression itself, or the translated expression with the loop index bound) *)
 Lemma step_sound sigma rm rc x e ce c' rm1 :
-  Inv sigma rm rc -> tr T e = Ok ce -> exec_assign F (x, e) rm = Some rm1 ->
+  Inv sigma rm rc -> wfa (x, e) -> tr T e = Ok ce -> exec_assign F (x, e) rm = Some rm1 ->
   ca_eval F c' (set_sc rc (gof sigma rc) (c_i rc)) = ca_eval F ce (set_sc rc (gof sigma rc) (m_i rm)) ->
   Inv (sigma_set sigma x (subst sigma c')) rm1 rc /\ m_i rm1 = m_i rm.
 Proof.
-  intros HI Htr Hex Hc'. unfold exec_assign in Hex. simpl in Hex.
+  intros HI [Wx We] Htr Hex Hc'. unfold exec_assign in Hex. simpl in Hex, Wx, We.
   destruct (m_eval F e rm) as [[q | b] |] eqn:Me; try discriminate Hex. injection Hex as <-.
-  destruct (expr_sound F T HT rm _ (inv_env_rel sigma rm rc HI) e ce Htr _ Me) as (w & Ew & Rw).
+  destruct (exprI_sound sigma rm rc e ce _ HI We Htr Me) as (w & Ew & Rw).
   simpl in Rw. subst w.
   assert (ca_eval F (subst sigma c') rc = Some q) as Es.
   { rewrite (subst_eval sigma rc (gof sigma rc) (inv_gof sigma rm rc HI)). rewrite Hc'. exact Ew. }
   split; [| reflexivity].
-  destruct HI as (H1 & H2 & H3). repeat split; simpl; auto.
-  intro y. unfold sigma_set. destruct (Pos.eqb y x) eqn:Ey.
-  - exists q. split; [reflexivity | exact Es].
-  - apply H1.
+  destruct HI as (H1 & H2 & H3 & H4). repeat split; simpl; auto.
+  - intros y Hy. unfold sigma_set. destruct (Pos.eqb y x) eqn:Ey.
+    + exists q. split; [reflexivity | exact Es].
+    + apply H1. exact Hy.
+  - intro y. unfold sigma_set. destruct (Pos.eqb y x); [exists q; exact Es | apply H2].
 Qed.
 
 Lemma apply_assigns_app l1 l2 sigma :
@@ -92,32 +160,36 @@ Qed.
 
 (* a list of assignments outside a loop *)
 Lemma assigns_sound l : forall sigma rm rc cl rm',
-  Inv sigma rm rc -> m_i rm = c_i rc -> tr_assigns T l = Ok cl -> exec_assigns F l rm = Some rm' ->
+  Forall wfa l -> Inv sigma rm rc -> m_i rm = c_i rc -> tr_assigns T l = Ok cl ->
+  exec_assigns F l rm = Some rm' ->
   Inv (apply_assigns cl sigma) rm' rc /\ m_i rm' = c_i rc.
 Proof.
-  induction l as [| [x e] r IH]; intros sigma rm rc cl rm' HI Hi Htr Hex; simpl in Htr, Hex.
+  induction l as [| [x e] r IH]; intros sigma rm rc cl rm' W HI Hi Htr Hex; simpl in Htr, Hex.
   - injection Htr as <-. injection Hex as <-. simpl. split; assumption.
   - destruct (tr T e) as [ce |] eqn:Ee; [| discriminate Htr].
     destruct (tr_assigns T r) as [cr |] eqn:Er; [| discriminate Htr]. injection Htr as <-.
     destruct (exec_assign F (x, e) rm) as [rm1 |] eqn:E1; [| discriminate Hex].
-    destruct (step_sound sigma rm rc x e ce ce rm1 HI Ee E1) as [HI1 Hi1].
+    pose proof (Forall_inv W) as W1. pose proof (Forall_inv_tail W) as Wr.
+    destruct (step_sound sigma rm rc x e ce ce rm1 HI W1 Ee E1) as [HI1 Hi1].
     { rewrite Hi. reflexivity. }
-    simpl. apply (IH _ rm1 rc cr rm' HI1); [congruence | reflexivity | exact Hex].
+    simpl. apply (IH _ rm1 rc cr rm' Wr HI1); [congruence | reflexivity | exact Hex].
 Qed.
 
 (* one iteration of a for-statement: the body with the index bound to v *)
 Lemma iter_sound v body : forall sigma rm rc cb rm',
-  Inv sigma rm rc -> m_i rm = v -> tr_assigns T body = Ok cb -> exec_assigns F body rm = Some rm' ->
+  Forall wfa body -> Inv sigma rm rc -> m_i rm = v -> tr_assigns T body = Ok cb ->
+  exec_assigns F body rm = Some rm' ->
   Inv (apply_assigns (map (fun xc => (fst xc, bind_i v (snd xc))) cb) sigma) rm' rc /\ m_i rm' = v.
 Proof.
-  induction body as [| [x e] r IH]; intros sigma rm rc cb rm' HI Hi Htr Hex; simpl in Htr, Hex.
+  induction body as [| [x e] r IH]; intros sigma rm rc cb rm' W HI Hi Htr Hex; simpl in Htr, Hex.
   - injection Htr as <-. injection Hex as <-. simpl. split; assumption.
   - destruct (tr T e) as [ce |] eqn:Ee; [| discriminate Htr].
     destruct (tr_assigns T r) as [cr |] eqn:Er; [| discriminate Htr]. injection Htr as <-.
     destruct (exec_assign F (x, e) rm) as [rm1 |] eqn:E1; [| discriminate Hex].
-    destruct (step_sound sigma rm rc x e ce (bind_i v ce) rm1 HI Ee E1) as [HI1 Hi1].
+    pose proof (Forall_inv W) as W1. pose proof (Forall_inv_tail W) as Wr.
+    destruct (step_sound sigma rm rc x e ce (bind_i v ce) rm1 HI W1 Ee E1) as [HI1 Hi1].
     { rewrite bind_i_eval. rewrite Hi. reflexivity. }
-    simpl. apply (IH _ rm1 rc cr rm' HI1); [congruence | reflexivity | exact Hex].
+    simpl. apply (IH _ rm1 rc cr rm' Wr HI1); [congruence | reflexivity | exact Hex].
 Qed.
 
 Lemma fold_exec_iter_none body vals : fold_left (exec_iter F body) vals None = None.
@@ -126,51 +198,306 @@ Proof. induction vals; simpl; auto. Qed.
 (* the whole for-statement: iterations in order, within each iteration the statements in order —
    exactly the order in which `unroll` (exitForStatement) lists the assignments *)
 Lemma loop_sound body cb vals : forall sigma rm rc rm',
-  Inv sigma rm rc -> tr_assigns T body = Ok cb ->
+  Forall wfa body -> Inv sigma rm rc -> tr_assigns T body = Ok cb ->
   fold_left (exec_iter F body) vals (Some rm) = Some rm' ->
   Inv (apply_assigns (unroll vals cb) sigma) rm' rc /\ m_i rm' = m_i rm.
 Proof.
-  induction vals as [| v vs IH]; intros sigma rm rc rm' HI Htr Hex; simpl in Hex.
+  induction vals as [| v vs IH]; intros sigma rm rc rm' W HI Htr Hex; simpl in Hex.
   - injection Hex as <-. simpl. split; [exact HI | reflexivity].
   - destruct (exec_assigns F body (with_mi rm v)) as [r' |] eqn:E1;
       [| rewrite fold_exec_iter_none in Hex; discriminate Hex].
-    destruct (iter_sound v body sigma (with_mi rm v) rc cb r' (inv_with_mi _ _ _ v HI) eq_refl Htr E1) as [HI1 _].
+    destruct (iter_sound v body sigma (with_mi rm v) rc cb r' W (inv_with_mi _ _ _ v HI) eq_refl Htr E1) as [HI1 _].
     unfold unroll. simpl. rewrite apply_assigns_app.
-    destruct (IH _ (with_mi r' (m_i rm)) rc rm' (inv_with_mi _ _ _ _ HI1) Htr Hex) as [HI2 Hi2].
+    destruct (IH _ (with_mi r' (m_i rm)) rc rm' W (inv_with_mi _ _ _ _ HI1) Htr Hex) as [HI2 Hi2].
     split; [exact HI2 | exact Hi2].
 Qed.
 
-(* ---------- if-statements ---------- *)
-(* well-formed if-statement (what pymoca's exitIfStatement silently assumes): every branch assigns
-   the same variables, each once, in the same order, and no condition depends on them *)
-Definition if_wf (brs : list (expr * list assign)) (els : list assign) : Prop :=
-  NoDup (map fst els) /\
-  Forall (fun b => map fst (snd b) = map fst els) brs /\
-  Forall (fun b => forall rho x q, In x (map fst els) ->
-                   m_eval F (fst b) (m_set rho x q) = m_eval F (fst b) rho) brs.
+(* ---------- if-statements, repaired translation (seq_if = true) ---------- *)
+Fixpoint nested (cvs : list (caexpr * caexpr)) (e : caexpr) : caexpr :=
+  match cvs with [] => e | (c, v) :: r => CIfElse c v (nested r e) end.
 
-Definition stmt_ok (s : stmt) : Prop :=
+Lemma combine_app_single {A B} (l1 : list A) (l2 : list B) a b :
+  length l1 = length l2 -> combine (l1 ++ [a]) (l2 ++ [b]) = combine l1 l2 ++ [(a, b)].
+Proof.
+  revert l2. induction l1 as [| x r IH]; intros [| y s] H; simpl in H; try discriminate H; simpl.
+  - reflexivity.
+  - f_equal. apply IH. congruence.
+Qed.
+Lemma combine_rev {A B} (l1 : list A) (l2 : list B) :
+  length l1 = length l2 -> combine (rev l1) (rev l2) = rev (combine l1 l2).
+Proof.
+  revert l2. induction l1 as [| x r IH]; intros [| y s] H; simpl in H; try discriminate H; simpl.
+  - reflexivity.
+  - rewrite combine_app_single by (rewrite !rev_length; congruence). rewrite IH by congruence. reflexivity.
+Qed.
+Lemma fold_nested (L : list (caexpr * caexpr)) e :
+  fold_left (fun src cr => CIfElse (fst cr) (snd cr) src) (rev L) e = nested L e.
+Proof.
+  induction L as [| [c v] r IH]; simpl; [reflexivity |].
+  rewrite fold_left_app. simpl. rewrite IH. reflexivity.
+Qed.
+(* the loop of exitIfStatement builds the nested if_else, first condition outermost *)
+Lemma merge_nested conds vals e :
+  length conds = length vals -> merge conds (vals ++ [e]) = nested (combine conds vals) e.
+Proof.
+  intro H. unfold merge. rewrite rev_unit. rewrite combine_rev by exact H. apply fold_nested.
+Qed.
+
+Lemma tr_assigns_fst l : forall cl, tr_assigns T l = Ok cl -> map fst cl = map fst l.
+Proof.
+  induction l as [| [x e] r IH]; intros cl H; simpl in H.
+  - injection H as <-. reflexivity.
+  - destruct (tr T e); [| discriminate H]. destruct (tr_assigns T r) as [cr |]; [| discriminate H].
+    injection H as <-. simpl. f_equal. apply IH. reflexivity.
+Qed.
+Lemma tr_blocks_app l b : forall blocks,
+  tr_blocks T (l ++ [b]) = Ok blocks ->
+  exists cl cb, tr_blocks T l = Ok cl /\ tr_assigns T b = Ok cb /\ blocks = cl ++ [cb].
+Proof.
+  induction l as [| a r IH]; intros blocks H; simpl in H.
+  - destruct (tr_assigns T b) as [cb |]; [| discriminate H]. injection H as <-.
+    exists [], cb. repeat split.
+  - destruct (tr_assigns T a) as [ca |] eqn:Ea; [| discriminate H].
+    destruct (tr_blocks T (r ++ [b])) as [cr |] eqn:Er; [| discriminate H]. injection H as <-.
+    destruct (IH cr eq_refl) as (cl & cb & E1 & E2 & E3). subst cr.
+    exists (ca :: cl), cb. simpl. rewrite Ea, E1. repeat split. exact E2.
+Qed.
+
+Lemma set_sc_self E : set_sc E (gof sigma0 E) (c_i E) = E.
+Proof. destruct E. reflexivity. Qed.
+
+(* the values of sigma, seen as a CasADi point for graphs over the original symbols *)
+Lemma inv_at sigma rm rc :
+  Inv sigma rm rc -> Inv sigma0 rm (set_sc rc (gof sigma rc) (c_i rc)).
+Proof.
+  intros (H1 & H2 & H3 & H4). repeat split; cbn [set_sc c_sc c_der c_arr c_i]; auto.
+  - intros y Hy. destruct (H1 y Hy) as (q & E1 & E2). exists q. split; [exact E1 |].
+    simpl. unfold gof. rewrite E2. reflexivity.
+  - intro y. eexists. reflexivity.
+Qed.
+
+(* frame: a block of assignments changes only its own left-hand sides *)
+Lemma exec_assigns_frame l : forall rm rm', exec_assigns F l rm = Some rm' ->
+  (forall y, ~ In y (map fst l) -> m_sc rm' y = m_sc rm y) /\
+  (forall x, m_der rm' x = m_der rm x) /\ (forall x k, m_arr rm' x k = m_arr rm x k) /\ m_i rm' = m_i rm.
+Proof.
+  induction l as [| [x e] r IH]; intros rm rm' H; simpl in H.
+  - injection H as <-. repeat split; reflexivity.
+  - unfold exec_assign in H. simpl in H.
+    destruct (m_eval F e rm) as [[q | b] |]; try discriminate H.
+    destruct (IH _ _ H) as (A1 & A2 & A3 & A4). repeat split.
+    + intros y Hy. simpl in Hy. rewrite A1 by tauto. simpl.
+      destruct (Pos.eqb y x) eqn:E; [| reflexivity]. apply Pos.eqb_eq in E. subst y. tauto.
+    + intro z. rewrite A2. reflexivity.
+    + intros z k. rewrite A3. reflexivity.
+    + rewrite A4. reflexivity.
+Qed.
+
+(* branch selection: at a point E holding the pre-if values, the merged graph of x evaluates to
+   the value x has after the sequential execution of the if-statement *)
+Lemma select_sound x (Hx : small x) els cels : forall brs conds cl E rm rm',
+  Inv sigma0 rm E -> m_i rm = c_i E ->
+  Forall (fun b => wfe (fst b) /\ Forall wfa (snd b)) brs -> Forall wfa els ->
+  tr_conds T (map fst brs) = Ok conds -> tr_blocks T (map snd brs) = Ok cl -> tr_assigns T els = Ok cels ->
+  exec_stmt F (SIf brs els) rm = Some rm' ->
+  exists q, m_sc rm' x = VNum q /\
+    ca_eval F (nested (combine conds (map (fun cb => apply_assigns cb sigma0 x) cl)) (apply_assigns cels sigma0 x)) E
+    = Some q.
+Proof.
+  induction brs as [| [c blk] r IH]; intros conds cl E rm rm' HI Hi Wb We Hc Hb Hels Hex;
+    simpl in Hc, Hb, Hex.
+  - injection Hc as <-. injection Hb as <-. simpl.
+    destruct (assigns_sound els sigma0 rm E cels rm' We HI Hi Hels Hex) as [(H1 & _) _].
+    exact (H1 x Hx).
+  - destruct (tr T c) as [cc |] eqn:Ec; [| discriminate Hc].
+    destruct (tr_conds T (map fst r)) as [cr |] eqn:Ecr; [| discriminate Hc]. injection Hc as <-.
+    destruct (tr_assigns T blk) as [cb |] eqn:Eb; [| discriminate Hb].
+    destruct (tr_blocks T (map snd r)) as [clr |] eqn:Ebr; [| discriminate Hb]. injection Hb as <-.
+    pose proof (Forall_inv Wb) as [Wc Wblk]. pose proof (Forall_inv_tail Wb) as Wr. simpl in Wc, Wblk.
+    destruct (m_eval F c rm) as [[qv | b] |] eqn:Mc; try discriminate Hex.
+    destruct (exprI_sound sigma0 rm E c cc _ HI Wc Ec Mc) as (w & Ew & [Hw Hb']).
+    rewrite Hi, set_sc_self in Ew.
+    simpl. rewrite Ew. destruct b.
+    + assert (w <> 0) as N by (apply Hb'; reflexivity). apply qeqb_false in N. rewrite N.
+      destruct (assigns_sound blk sigma0 rm E cb rm' Wblk HI Hi Eb Hex) as [(H1 & _) _].
+      exact (H1 x Hx).
+    + assert (w = 0) as Z.
+      { destruct (Qc_eq_dec w 0) as [E0 | N]; [exact E0 |]. apply Hb' in N. discriminate N. }
+      apply qeqb_true in Z. rewrite Z.
+      apply (IH cr clr E rm rm' HI Hi Wr We eq_refl eq_refl Hels Hex).
+Qed.
+
+Lemma tmp_inj x y : tmp_of x = tmp_of y -> x = y.
+Proof. unfold tmp_of. intro H. lia. Qed.
+
+(* phase 1: the merged values go to the fresh temporaries; program variables are untouched *)
+Lemma tmp_phase (merged : positive -> caexpr) rm rm' rc
+      (Hval : forall s x, small x -> Inv s rm rc ->
+                          exists q, m_sc rm' x = VNum q /\ ca_eval F (subst s (merged x)) rc = Some q) :
+  forall xs sigma (P : positive -> Prop),
+  Inv sigma rm rc -> (forall x, In x xs -> small x) ->
+  (forall x, P x -> exists q, m_sc rm' x = VNum q /\ ca_eval F (sigma (tmp_of x)) rc = Some q) ->
+  let st := apply_assigns (map (fun x => (tmp_of x, merged x)) xs) sigma in
+  Inv st rm rc /\ (forall y, small y -> st y = sigma y) /\
+  (forall x, P x \/ In x xs -> exists q, m_sc rm' x = VNum q /\ ca_eval F (st (tmp_of x)) rc = Some q).
+Proof.
+  induction xs as [| x0 r IH]; intros sigma P HI Hs HP; simpl.
+  - split; [exact HI | split; [reflexivity |]]. intros x [Hx | []]. apply HP. exact Hx.
+  - assert (small x0) as Hx0 by (apply Hs; left; reflexivity).
+    destruct (Hval sigma x0 Hx0 HI) as (q0 & M0 & E0).
+    set (s1 := sigma_set sigma (tmp_of x0) (subst sigma (merged x0))).
+    assert (Inv s1 rm rc) as HI1.
+    { destruct HI as (H1 & H2 & H3 & H4). repeat split; auto.
+      - intros y Hy. unfold s1, sigma_set. rewrite (small_neq_tmp y x0 Hy). apply H1. exact Hy.
+      - intro y. unfold s1, sigma_set. destruct (Pos.eqb y (tmp_of x0)); [exists q0; exact E0 | apply H2]. }
+    destruct (IH s1 (fun x => P x \/ x = x0) HI1 (fun x Hx => Hs x (or_intror Hx))) as (A1 & A2 & A3).
+    { intros x [Hp | ->].
+      - destruct (HP x Hp) as (q & Mq & Eq). exists q. split; [exact Mq |].
+        unfold s1, sigma_set. destruct (Pos.eqb (tmp_of x) (tmp_of x0)) eqn:E.
+        + apply Pos.eqb_eq in E. apply tmp_inj in E. subst x. rewrite M0 in Mq. injection Mq as <-. exact E0.
+        + exact Eq.
+      - exists q0. split; [exact M0 |]. unfold s1, sigma_set. rewrite Pos.eqb_refl. exact E0. }
+    split; [exact A1 | split].
+    + intros y Hy. rewrite (A2 y Hy). unfold s1, sigma_set. rewrite (small_neq_tmp y x0 Hy). reflexivity.
+    + intros x [Hp | [-> | Hr]]; apply A3; tauto.
+Qed.
+
+(* phase 2: the variables take the values of their temporaries *)
+Lemma var_phase : forall xs sigma,
+  (forall x, In x xs -> small x) ->
+  let sv := apply_assigns (map (fun x => (x, CSym (SVar (tmp_of x)))) xs) sigma in
+  (forall x, In x xs -> sv x = sigma (tmp_of x)) /\ (forall y, ~ In y xs -> sv y = sigma y).
+Proof.
+  induction xs as [| x0 r IH]; intros sigma Hs; simpl.
+  - split; [intros x [] | reflexivity].
+  - set (s1 := sigma_set sigma x0 (sigma (tmp_of x0))).
+    assert (small x0) as Hx0 by (apply Hs; left; reflexivity).
+    destruct (IH s1 (fun x Hx => Hs x (or_intror Hx))) as [B1 B2].
+    assert (forall x, s1 (tmp_of x) = sigma (tmp_of x)) as Ht.
+    { intro x. unfold s1, sigma_set. destruct (Pos.eqb (tmp_of x) x0) eqn:E; [| reflexivity].
+      apply Pos.eqb_eq in E. exfalso. apply (tmp_not_small x). rewrite E. exact Hx0. }
+    split.
+    + intros x Hx. destruct (in_dec Pos.eq_dec x r) as [Hr | Hr].
+      * rewrite (B1 x Hr). apply Ht.
+      * destruct Hx as [-> | Hx]; [| contradiction]. rewrite (B2 x Hr). unfold s1, sigma_set.
+        rewrite Pos.eqb_refl. reflexivity.
+    + intros y Hy. rewrite B2 by tauto. unfold s1, sigma_set.
+      destruct (Pos.eqb y x0) eqn:E; [| reflexivity]. apply Pos.eqb_eq in E. subst y. tauto.
+Qed.
+
+(* well-formed if-statement: program variables only, and every branch assigns (a subset of) the
+   variables of the first branch — the generator checks the other inclusion *)
+Definition blocks_of (brs : list (expr * list assign)) (els : list assign) : list (list assign) :=
+  map snd brs ++ [els].
+Definition if_ok (brs : list (expr * list assign)) (els : list assign) : Prop :=
+  Forall (fun b => wfe (fst b) /\ Forall wfa (snd b)) brs /\ Forall wfa els /\
+  Forall (fun blk => forall x, In x (map fst blk) -> In x (map fst (hd [] (blocks_of brs els))))
+         (blocks_of brs els).
+
+Lemma exec_if_frame brs els rm rm' :
+  exec_stmt F (SIf brs els) rm = Some rm' ->
+  exists blk, In blk (blocks_of brs els) /\ exec_assigns F blk rm = Some rm'.
+Proof.
+  unfold blocks_of. induction brs as [| [c b] r IH]; simpl; intro H.
+  - exists els. split; [left; reflexivity | exact H].
+  - destruct (m_eval F c rm) as [[q | [|]] |]; try discriminate H.
+    + exists b. split; [left; reflexivity | exact H].
+    + destruct (IH H) as (blk & Hin & He). exists blk. split; [right; exact Hin | exact He].
+Qed.
+
+Lemma if_sound brs els sigma rm rc l rm' :
+  if_ok brs els -> Inv sigma rm rc -> m_i rm = c_i rc ->
+  tr_stmt T true (SIf brs els) = Ok l -> exec_stmt F (SIf brs els) rm = Some rm' ->
+  Inv (apply_assigns l sigma) rm' rc /\ m_i rm' = c_i rc.
+Proof.
+  intros (Wb & We & Wsub) HI Hi Htr Hex. cbn [tr_stmt] in Htr.
+  destruct (forallb _ brs); [| discriminate Htr].
+  destruct (tr_conds T (map fst brs)) as [conds |] eqn:Ec; [| discriminate Htr].
+  destruct (tr_blocks T (map snd brs ++ [els])) as [blocks |] eqn:Eb; [| discriminate Htr].
+  match type of Htr with (if ?b then _ else _) = _ => destruct b; [| discriminate Htr] end. injection Htr as <-.
+  destruct (tr_blocks_app (map snd brs) els blocks Eb) as (cl & cels & Ecl & Eels & ->).
+  set (xs := map fst (hd [] (cl ++ [cels]))).
+  set (merged := fun x => merge conds (map (fun f : positive -> caexpr => f x)
+                                           (map (fun cb => apply_assigns cb sigma0) (cl ++ [cels])))).
+  (* lengths *)
+  assert (length conds = length cl) as Hlen.
+  { clear - Ec Ecl. revert conds cl Ec Ecl. induction brs as [| [c b] r IH]; intros conds cl Ec Ecl; simpl in Ec, Ecl.
+    - injection Ec as <-. injection Ecl as <-. reflexivity.
+    - destruct (tr T c); [| discriminate Ec]. destruct (tr_conds T (map fst r)) as [cr |]; [| discriminate Ec].
+      destruct (tr_assigns T b); [| discriminate Ecl]. destruct (tr_blocks T (map snd r)) as [clr |]; [| discriminate Ecl].
+      injection Ec as <-. injection Ecl as <-. simpl. f_equal. apply IH; reflexivity. }
+  assert (forall x, merged x =
+                    nested (combine conds (map (fun cb => apply_assigns cb sigma0 x) cl)) (apply_assigns cels sigma0 x)) as Hm.
+  { intro x. unfold merged. rewrite map_map, map_app. simpl. apply merge_nested. rewrite map_length. exact Hlen. }
+  (* the variables of the first block are those of the first Modelica block *)
+  assert (xs = map fst (hd [] (blocks_of brs els))) as Hxs.
+  { unfold xs, blocks_of. destruct brs as [| [c b] r]; simpl in *.
+    - injection Ecl as <-. simpl. apply (tr_assigns_fst els cels Eels).
+    - destruct (tr_assigns T b) as [cb |] eqn:E1; [| discriminate Ecl].
+      destruct (tr_blocks T (map snd r)); [| discriminate Ecl]. injection Ecl as <-. simpl.
+      apply (tr_assigns_fst b cb E1). }
+  assert (forall x, In x xs -> small x) as Hsm.
+  { intros x Hx. rewrite Hxs in Hx. unfold blocks_of in Hx.
+    assert (Forall wfa (hd [] (map snd brs ++ [els]))) as Wh.
+    { destruct brs as [| [c b] r]; simpl; [exact We | exact (proj2 (Forall_inv Wb))]. }
+    rewrite Forall_forall in Wh. apply in_map_iff in Hx. destruct Hx as (a & <- & Ha). exact (proj1 (Wh a Ha)). }
+  (* value of the merged graph under any sigma satisfying the invariant *)
+  assert (forall s x, small x -> Inv s rm rc ->
+                      exists q, m_sc rm' x = VNum q /\ ca_eval F (subst s (merged x)) rc = Some q) as Hval.
+  { intros s x Hx Hs. rewrite (subst_eval s rc (gof s rc) (inv_gof s rm rc Hs)). rewrite Hm.
+    apply (select_sound x Hx els cels brs conds cl _ rm rm' (inv_at s rm rc Hs)); try assumption. }
+  rewrite apply_assigns_app.
+  destruct (tmp_phase merged rm rm' rc Hval xs sigma (fun _ => False) HI Hsm) as (A1 & A2 & A3).
+  { intros x []. }
+  set (st := apply_assigns (map (fun x => (tmp_of x, merged x)) xs) sigma) in *.
+  destruct (var_phase xs st Hsm) as [B1 B2].
+  set (sv := apply_assigns (map (fun x => (x, CSym (SVar (tmp_of x)))) xs) st) in *.
+  change (Inv sv rm' rc /\ m_i rm' = c_i rc).
+  destruct (exec_if_frame brs els rm rm' Hex) as (blk & Hin & Hblk).
+  destruct (exec_assigns_frame blk rm rm' Hblk) as (F1 & F2 & F3 & F4).
+  assert (forall y, ~ In y xs -> m_sc rm' y = m_sc rm y) as Hframe.
+  { intros y Hy. apply F1. intro Hyb. apply Hy. rewrite Hxs.
+    rewrite Forall_forall in Wsub. exact (Wsub blk Hin y Hyb). }
+  split; [| congruence].
+  destruct A1 as (I1 & I2 & I3 & I4). repeat split.
+  - intros y Hy. destruct (in_dec Pos.eq_dec y xs) as [Hi' | Hn].
+    + rewrite (B1 y Hi'). apply A3. right. exact Hi'.
+    + rewrite (B2 y Hn). rewrite (Hframe y Hn). apply I1. exact Hy.
+  - intro y. destruct (in_dec Pos.eq_dec y xs) as [Hi' | Hn].
+    + rewrite (B1 y Hi'). destruct (A3 y (or_intror Hi')) as (q & _ & E). exists q. exact E.
+    + rewrite (B2 y Hn). apply I2.
+  - intro z. rewrite F2. apply I3.
+  - intros z k. rewrite F3. apply I4.
+Qed.
+
+(* ---------- statements ---------- *)
+(* sq = which exitIfStatement (Model/C11_functions.v tr_stmt); if-statements are covered for the
+   repaired translation only *)
+Definition stmt_ok (sq : bool) (s : stmt) : Prop :=
   match s with
-  | SIf brs els => False          (* see C11_function_partial in Props/C11.v *)
-  | _ => True
+  | SAssign a => wfa a
+  | SIf brs els => sq = true /\ if_ok brs els
+  | SFor _ _ _ body => Forall wfa body
   end.
 
 Lemma stmt_sound sq s sigma rm rc l rm' :
-  stmt_ok s -> Inv sigma rm rc -> m_i rm = c_i rc -> tr_stmt T sq s = Ok l -> exec_stmt F s rm = Some rm' ->
+  stmt_ok sq s -> Inv sigma rm rc -> m_i rm = c_i rc -> tr_stmt T sq s = Ok l -> exec_stmt F s rm = Some rm' ->
   Inv (apply_assigns l sigma) rm' rc /\ m_i rm' = c_i rc.
 Proof.
-  destruct s as [a | brs els | lo st hi body]; intros Hok HI Hi Htr Hex; simpl in Htr, Hex.
-  - apply (assigns_sound [a] sigma rm rc l rm' HI Hi Htr). simpl. destruct (exec_assign F a rm); [exact Hex | discriminate Hex].
-  - destruct Hok.
+  destruct s as [a | brs els | lo st hi body]; intros Hok HI Hi Htr Hex;
+    [simpl in Htr, Hex, Hok | | simpl in Htr, Hex, Hok].
+  - apply (assigns_sound [a] sigma rm rc l rm' (Forall_cons a Hok (Forall_nil _)) HI Hi Htr).
+    simpl. destruct (exec_assign F a rm); [exact Hex | discriminate Hex].
+  - destruct Hok as [-> Hok]. exact (if_sound brs els sigma rm rc l rm' Hok HI Hi Htr Hex).
   - destruct (st =? 0)%Z eqn:Est; [discriminate Hex |]. apply Z.eqb_neq in Est.
     destruct (tr_assigns T body) as [cb |] eqn:Eb; [| discriminate Htr]. injection Htr as <-.
     rewrite (range_values_modelica lo st hi Est).
-    destruct (loop_sound body cb _ sigma rm rc rm' HI Eb Hex) as [H1 H2].
+    destruct (loop_sound body cb _ sigma rm rc rm' Hok HI Eb Hex) as [H1 H2].
     split; [exact H1 | congruence].
 Qed.
 
 Lemma stmts_sound sq body : forall sigma rm rc l rm',
-  Forall stmt_ok body -> Inv sigma rm rc -> m_i rm = c_i rc -> tr_stmts T sq body = Ok l ->
+  Forall (stmt_ok sq) body -> Inv sigma rm rc -> m_i rm = c_i rc -> tr_stmts T sq body = Ok l ->
   exec F body rm = Some rm' -> Inv (apply_assigns l sigma) rm' rc /\ m_i rm' = c_i rc.
 Proof.
   induction body as [| s r IH]; intros sigma rm rc l rm' Hok HI Hi Htr Hex; simpl in Htr, Hex.
@@ -193,17 +520,68 @@ Definition init_rel (rm : menv) (rc : cenv) : Prop :=
 Lemma init_inv rm rc : init_rel rm rc -> Inv sigma0 rm rc.
 Proof.
   intros (H1 & H2 & H3 & _). repeat split; auto.
-  intro y. exists (c_sc rc y). split; [apply H1 | reflexivity].
+  - intros y _. exists (c_sc rc y). split; [apply H1 | reflexivity].
+  - intro y. exists (c_sc rc y). reflexivity.
 Qed.
 
 Lemma function_sound sq body l rm rc rm' :
-  Forall stmt_ok body -> init_rel rm rc -> tr_stmts T sq body = Ok l -> exec F body rm = Some rm' ->
-  forall x, exists q, m_sc rm' x = VNum q /\ ca_eval F (apply_assigns l sigma0 x) rc = Some q.
+  Forall (stmt_ok sq) body -> init_rel rm rc -> tr_stmts T sq body = Ok l -> exec F body rm = Some rm' ->
+  forall x, small x -> exists q, m_sc rm' x = VNum q /\ ca_eval F (apply_assigns l sigma0 x) rc = Some q.
 Proof.
   intros Hok Hinit Htr Hex.
   destruct (stmts_sound sq body sigma0 rm rc l rm' Hok (init_inv rm rc Hinit)
               (proj2 (proj2 (proj2 Hinit))) Htr Hex) as [(H1 & _) _].
   exact H1.
+Qed.
+
+(* ---------- the call site ---------- *)
+Lemma args_sound rm rc (HE : env_rel rm rc) args : forall cargs vs,
+  tr_exprs T args = Ok cargs ->
+  all_some (map (fun a => match m_eval F a rm with Some (VNum v) => Some v | _ => None end) args) = Some vs ->
+  all_some (map (fun c => ca_eval F c rc) cargs) = Some vs.
+Proof.
+  unfold tr_exprs. induction args as [| a r IH]; intros cargs vs Htr Hm; simpl in Htr, Hm.
+  - injection Htr as <-. exact Hm.
+  - destruct (tr T a) as [ca |] eqn:Ea; [| discriminate Htr].
+    destruct (tr_conds T r) as [cr |] eqn:Er; [| discriminate Htr]. injection Htr as <-.
+    destruct (m_eval F a rm) as [[v | b] |] eqn:Ma; try discriminate Hm.
+    destruct (all_some (map _ r)) as [vr |] eqn:Mr; [| discriminate Hm]. injection Hm as <-.
+    destruct (expr_sound F T HT rm rc HE a ca Ea _ Ma) as (w & Ew & Rw). simpl in Rw. subst w.
+    simpl. rewrite Ew. rewrite (IH cr vr eq_refl eq_refl). reflexivity.
+Qed.
+
+Definition func_ok (sq : bool) (f : func) : Prop :=
+  Forall (stmt_ok sq) (f_body f) /\ Forall small (f_out f).
+
+Lemma call_sound sq rm rc (HE : env_rel rm rc) lhs f args r ms :
+  func_ok sq f ->
+  ca_call_res F T sq (lhs, f, args) rc = Ok r -> m_call_res F (lhs, f, args) rm = Some ms ->
+  exists cs, r = Some cs /\ Forall2 agrees ms cs.
+Proof.
+  intros [Wb Wo] Hc Hm. unfold ca_call_res in Hc. unfold m_call_res in Hm.
+  unfold tr_func in Hc.
+  destruct (tr_stmts T sq (f_body f)) as [l |] eqn:El; [| discriminate Hc].
+  destruct (tr_exprs T args) as [cargs |] eqn:Ea; [| discriminate Hc].
+  destruct (all_some (map _ args)) as [vs |] eqn:Mv; [| discriminate Hm].
+  rewrite (args_sound rm rc HE args cargs vs Ea Mv) in Hc. injection Hc as <-.
+  destruct (exec F (f_body f) (m_fun_env f vs rm)) as [rout |] eqn:Ex; [| discriminate Hm].
+  injection Hm as <-.
+  set (rin := set_sc rc (bind_args (f_in f) vs (c_sc rc)) (c_i rc)).
+  assert (init_rel (m_fun_env f vs rm) rin) as Hinit.
+  { destruct HE as (H1 & H2 & H3 & H4). repeat split; simpl; auto.
+    intro y. f_equal. clear - H1. revert vs.
+    assert (forall g1 g2 : positive -> Qc, (forall z, g1 z = g2 z) ->
+            forall xs vs, bind_args xs vs g1 y = bind_args xs vs g2 y) as Hb.
+    { intros g1 g2 Hg xs. revert g1 g2 Hg. induction xs as [| x xr IH]; intros g1 g2 Hg [| v vr]; simpl; auto.
+      apply IH. intro z. destruct (Pos.eqb z x); auto. }
+    intro vs. apply Hb. intro z. specialize (H1 z). destruct (m_sc rm z); simpl; auto. }
+  pose proof (function_sound sq (f_body f) l (m_fun_env f vs rm) rin rout Wb Hinit El Ex) as Hf.
+  eexists. split; [reflexivity |].
+  clear - Hf Wo HE. revert lhs. induction (f_out f) as [| o outs IH]; intros [| y lhs]; simpl; try constructor.
+  - pose proof (Forall_inv Wo) as So. destruct (Hf o So) as (q & Mq & Eq). rewrite Eq.
+    intros d Hd. destruct HE as (H1 & _). specialize (H1 y). destruct (m_sc rm y) as [lq | b]; [| discriminate Hd].
+    rewrite Mq in Hd. injection Hd as <-. rewrite H1. reflexivity.
+  - apply IH. exact (Forall_inv_tail Wo).
 Qed.
 
 End FunSound.
@@ -272,3 +650,12 @@ Lemma ifdep_repaired :
   | Err _ => False
   end.
 Proof. vm_compute. split; reflexivity. Qed.
+
+(* non-vacuity of the if-statement hypothesis: the witness statement is well-formed *)
+Lemma ifdep_ok : stmt_ok true ifdep_stmt.
+Proof.
+  split; [reflexivity |]. unfold if_ok, blocks_of. simpl. repeat split.
+  - repeat constructor; simpl; repeat split; try reflexivity; exact I.
+  - repeat constructor; simpl; repeat split; try reflexivity; exact I.
+  - apply Forall_cons; [simpl; intros x H; exact H | apply Forall_cons; [simpl; intros x H; exact H | apply Forall_nil]].
+Qed.
